@@ -179,22 +179,26 @@ def match_findings(m, case, result, findings):
         ent = table.get(fd["id"])
         if ent is None:
             continue
-        pre, abl = ent
+        pre, abl = ent[0], ent[1]
+        # optional third element: may this finding be the SOLE explanation of THIS violation (its class
+        # and message)?  A finding whose trigger is present but whose symptom is another one can only be
+        # part of a composition with a finding that does explain the reported symptom.
+        sole = ent[2] if len(ent) > 2 else None
         try:
             if pre(case, result):
-                applicable.append((fd["id"], abl))
+                applicable.append((fd["id"], abl, sole is None or bool(sole(case, result))))
         except Exception:  # noqa: BLE001
             traceback.print_exc()
     out = []
-    for fid, abl in applicable:
-        if exec_case(m, abl(case))["status"] == "ok":
+    for fid, abl, sole_ok in applicable:
+        if sole_ok and exec_case(m, abl(case))["status"] == "ok":
             out.append(fid)
-    if not out and len(applicable) > 1:
+    if not out and len(applicable) > 1 and any(sole_ok for _, _, sole_ok in applicable):
         c = case
-        for _, abl in applicable:
+        for _, abl, _ in applicable:
             c = abl(c)
         if exec_case(m, c)["status"] == "ok":
-            out = [fid for fid, _ in applicable]
+            out = [fid for fid, _, _ in applicable]
     return sorted(set(out))
 
 
